@@ -28,6 +28,9 @@ theorem R.sat_ne_hang {α : Type} {r : R α} {P : α → Prop} (h : r.sat P) : r
 theorem R.sat_ne_abort {α : Type} {r : R α} {P : α → Prop} (h : r.sat P) : r ≠ .abort := by
   obtain ⟨v, rfl, _⟩ := h
   intro h; cases h
+theorem R.sat_ne_badptr {α : Type} {r : R α} {P : α → Prop} (h : r.sat P) : r ≠ .badptr := by
+  obtain ⟨v, rfl, _⟩ := h
+  intro h; cases h
 
 /-- weak variant: a failed `assert` is tolerated (used where the assertion needs an extra hypothesis
     on the data, while the memory-safety claim does not) -/
@@ -48,17 +51,14 @@ theorem R.wsat_ne_hang {α : Type} {r : R α} {P : α → Prop} (h : r.wsat P) :
   rcases h with rfl | h
   · intro h; cases h
   · exact R.sat_ne_hang h
+theorem R.wsat_ne_badptr {α : Type} {r : R α} {P : α → Prop} (h : r.wsat P) : r ≠ .badptr := by
+  rcases h with rfl | h
+  · intro h; cases h
+  · exact R.sat_ne_badptr h
 
 @[simp] theorem R.ok_bind {α β : Type} (v : α) (f : α → R β) : (R.ok v >>= f) = f v := rfl
 @[simp] theorem R.pure_bind' {α β : Type} (v : α) (f : α → R β) : ((pure v : R α) >>= f) = f v := rfl
 theorem R.pure_eq {α : Type} (v : α) : (pure v : R α) = .ok v := rfl
-
-/-- close a `(pure v).sat P` goal whose `P v` is linear arithmetic (or `True`) -/
-macro "rfin" : tactic =>
-  `(tactic| exact R.sat_pure (by first | (simp only [true_and] <;> omega) | omega | exact True.intro))
-
-/-- side conditions of `iter_sat` (invariant holds initially, enough fuel) -/
-macro "rarith" : tactic => `(tactic| first | omega | (simp only [] <;> omega))
 
 /-! ### accessors -/
 
@@ -76,6 +76,24 @@ theorem sub_ok {first last p e : Nat} (h1 : first ≤ p) (h2 : p ≤ e) (h3 : e 
 
 theorem idx_ok {n i : Nat} (h : i < n) : idx n i = .ok () := by
   unfold idx; rw [if_pos h]
+
+theorem mkptr_ok {first last p : Nat} (h1 : first ≤ p) (h2 : p ≤ last) : mkptr first last p = .ok p := by
+  unfold mkptr; rw [if_pos ⟨h1, h2⟩]
+
+theorem mkptrSub_ok {first last p k : Nat} (h1 : first + k ≤ p) (h2 : p - k ≤ last) :
+    mkptrSub first last p k = .ok (p - k) := by
+  unfold mkptrSub; rw [if_pos ⟨h1, h2⟩]
+
+/-- rewrite every pointer formation whose bounds follow from the context by linear arithmetic -/
+macro "psimp" : tactic => `(tactic| try simp (disch := omega) only [mkptr_ok, mkptrSub_ok, R.ok_bind])
+
+/-- close a `(pure v).sat P` goal whose `P v` is linear arithmetic (or `True`) -/
+macro "rfin" : tactic =>
+  `(tactic| (psimp; exact R.sat_pure (by first | (simp only [true_and] <;> omega) | omega | exact True.intro)))
+
+/-- side conditions of `iter_sat` (invariant holds initially, enough fuel) -/
+macro "rarith" : tactic => `(tactic| first | omega | (simp only [] <;> omega))
+
 
 theorem sat_rd {a : Array Nat} {first last i : Nat} (h1 : first ≤ i) (h2 : i < last) (h3 : last ≤ a.size) :
     (rd a first last i).sat (fun v => v = a[i]!) := ⟨_, rd_ok h1 h2 h3, rfl⟩
@@ -183,12 +201,15 @@ theorem u8LastTrail_sat (a : Array Nat) (first last p c f0 : Nat) (hl : last ≤
     (h1 : first ≤ p) (h2 : p < last) (h0 : f0 < p) :
     (u8LastTrail a first last p c).sat (ReadPost f0 last) := by
   simp only [u8LastTrail, rd_ok h1 h2 hl, R.ok_bind]
-  split <;> exact R.sat_pure (by simp only [ReadPost]; omega)
+  split
+  · psimp; exact R.sat_pure (by simp only [ReadPost]; omega)
+  · exact R.sat_pure (by simp only [ReadPost]; omega)
 
 theorem u8SecondToLast_sat (a : Array Nat) (first last p c tmp f0 : Nat) (hl : last ≤ a.size)
     (h1 : first ≤ p) (h2 : p < last) (h0 : f0 < p) :
     (u8SecondToLast a first last p c tmp).sat (ReadPost f0 last) := by
   simp only [u8SecondToLast]
+  psimp
   split
   · exact u8LastTrail_sat a first last (p + 1) _ f0 hl (by omega) (by omega) (by omega)
   · exact R.sat_pure (by simp only [ReadPost]; omega)
@@ -200,6 +221,7 @@ theorem readU8_sat (a : Array Nat) (first last : Nat) (h : first < last) (hl : l
     have : (0xF : Nat) = 2 ^ 4 - 1 := by decide
     rw [this, Nat.and_two_pow_sub_one_eq_mod]; omega
   simp only [readU8, rd_ok (Nat.le_refl _) h hl, R.ok_bind]
+  psimp
   split
   · exact R.sat_pure (by simp only [ReadPost]; omega)
   split
@@ -216,7 +238,8 @@ theorem readU8_sat (a : Array Nat) (first last : Nat) (h : first < last) (hl : l
           intro x; rw [Nat.shiftRight_eq_div_pow]; omega
         simp only [rd_ok (by omega : first ≤ first + 1) hp hl, idx_ok (h16 _), R.ok_bind]
         split
-        · split
+        · psimp
+          split
           · rename_i hne
             simp only [rd_ok (by omega : first ≤ first + 1 + 1) (by omega : first + 1 + 1 < last) hl, R.ok_bind]
             split
@@ -232,18 +255,22 @@ theorem readU8_sat (a : Array Nat) (first last : Nat) (h : first < last) (hl : l
 theorem readU16_sat (a : Array Nat) (first last : Nat) (h : first < last) (hl : last ≤ a.size) :
     (readU16 a first last).sat (ReadPost first last) := by
   simp only [readU16, rd_ok (Nat.le_refl _) h hl, R.ok_bind]
+  psimp
   split
   · split
     · rename_i hc
       have hp : first + 1 < last := by omega
       simp only [rd_ok (by omega : first ≤ first + 1) hp hl, R.ok_bind]
-      split <;> exact R.sat_pure (by simp only [ReadPost]; omega)
+      split
+      · psimp; exact R.sat_pure (by simp only [ReadPost]; omega)
+      · exact R.sat_pure (by simp only [ReadPost]; omega)
     · exact R.sat_pure (by simp only [ReadPost]; omega)
   · exact R.sat_pure (by simp only [ReadPost]; omega)
 
 theorem readU32_sat (a : Array Nat) (first last : Nat) (h : first < last) (hl : last ≤ a.size) :
     (readU32 a first last).sat (ReadPost first last) := by
   simp only [readU32, rd_ok (Nat.le_refl _) h hl, R.ok_bind]
+  psimp
   exact R.sat_pure (by simp only [ReadPost]; omega)
 
 theorem readChar_sat (e : Enc) (a : Array Nat) (first last : Nat) (h : first < last) (hl : last ≤ a.size) :
@@ -308,7 +335,7 @@ theorem checkFixUtf8_sat (a : Array Nat) (first last : Nat) (h : first ≤ last)
 
 /-- close a `(pure v).wsat P` goal -/
 macro "wfin" : tactic =>
-  `(tactic| exact R.wsat_pure (by first | (simp only [true_and] <;> omega) | omega | exact True.intro))
+  `(tactic| (psimp; exact R.wsat_pure (by first | (simp only [true_and] <;> omega) | omega | exact True.intro)))
 
 /-- memory safety and termination of compare_by_code_units for arbitrary code units (the `assert` is
     dealt with in `compareByCodeUnits_sat`, Proofs/BoundsAgree.lean) -/
@@ -358,6 +385,7 @@ theorem decodeHexToByte_sat (a : Array Nat) (first last : Nat) (h : first ≤ la
       · exact R.sat_pure (by simp)
       · simp only [idx_ok (by omega : a[first]! % 256 / 0x20 < 8), idx_ok (by omega : a[first + 1]! % 256 / 0x20 < 8),
           R.ok_bind]
+        psimp
         exact R.sat_pure (by intro v p hp; cases hp; omega)
 
 theorem pctRun_sat (a : Array Nat) (first last : Nat) (hl : last ≤ a.size) (it : Nat) (buff : List Nat)
@@ -372,7 +400,8 @@ theorem pctRun_sat (a : Array Nat) (first last : Nat) (hl : last ≤ a.size) (it
     · simp only [rd_ok (by omega : first ≤ p) (by omega : p < last) hl, R.ok_bind]
       split
       · rfin
-      · simp only [sub_ok (by omega : first ≤ p + 1) (by omega : p + 1 ≤ last) (Nat.le_refl _), R.ok_bind]
+      · psimp
+        simp only [sub_ok (by omega : first ≤ p + 1) (by omega : p + 1 ≤ last) (Nat.le_refl _), R.ok_bind]
         refine R.sat_bind (decodeHexToByte_sat a (p + 1) last (by omega) hl) ?_
         intro r hr
         cases r with
@@ -393,6 +422,7 @@ theorem appendPercentDecoded_sat (e : Enc) (a : Array Nat) (first last : Nat) (h
     split
     · rfin
     · simp only [rd_ok hI.1 (by omega : it < last) hl, R.ok_bind]
+      psimp
       split
       · split
         · rfin
@@ -413,7 +443,8 @@ theorem appendPercentDecoded_sat (e : Enc) (a : Array Nat) (first last : Nat) (h
               refine R.sat_bind (checkFixUtf8_sat buff.toArray 0 buff.length (Nat.zero_le _) (by simp)) ?_
               intro fixed _
               rfin
-      · have : it + 1 - 1 = it := by omega
+      · psimp
+        have : it + 1 - 1 = it := by omega
         rw [this]
         refine R.sat_bind (readUtfChar_sat e a first last it hI.1 (by omega) hl) ?_
         intro ⟨cp, it'⟩ hv
@@ -426,6 +457,7 @@ theorem hasXnLabel_sat (a : Array Nat) (first last : Nat) (h : first ≤ last) (
   unfold hasXnLabel
   split
   · rename_i h4
+    psimp
     refine iter_sat _ (fun p => first ≤ p ∧ p ≤ last - 4) (fun p => last - p) _ ?_ _ _ ?_ ?_
     · intro p hI
       simp only [rd_ok hI.1 (by omega : p < last) hl, R.ok_bind]
@@ -461,9 +493,11 @@ theorem endsInNumber_sat (a : Array Nat) (first last : Nat) (h : first ≤ last)
   split
   · rename_i hne
     simp only [rdPrev_ok (by omega : first < last) (Nat.le_refl _) hl, R.ok_bind]
-    generalize hlast' : (if a[last - 1]! = 0x2E then last - 1 else last) = last'
-    have hl' : first ≤ last' ∧ last' ≤ last := by
-      rw [← hlast']; split <;> omega
+    refine R.sat_bind (P := fun last' => first ≤ last' ∧ last' ≤ last) ?_ ?_
+    · split
+      · rfin
+      · rfin
+    intro last' hl'
     refine R.sat_bind (iter_sat _ (fun sol => first ≤ sol ∧ sol ≤ last') (fun sol => sol - first)
       (fun sol => first ≤ sol ∧ sol ≤ last') ?_ _ _ ?_ ?_) ?_
     · intro sol hI
@@ -490,6 +524,7 @@ theorem endsInNumber_sat (a : Array Nat) (first last : Nat) (h : first ≤ last)
           split
           · rename_i ht
             have := h0x ht
+            psimp
             simp only [sub_ok (by omega : first ≤ sol + 2) this hl'.2, R.ok_bind]
             exact allOf_sat a first last _ hl _ _ (by omega) (by omega)
           · simp only [sub_ok hs.1 hs.2 hl'.2, R.ok_bind]
@@ -508,6 +543,12 @@ theorem ipv4ParseNumber_sat (a : Array Nat) (first last : Nat) (h : first ≤ la
       · split
         · exact R.sat_pure (by simp)
         · simp only [rd_ok (by omega : first ≤ first + 1) (by omega : first + 1 < last) hl, R.ok_bind]
+          have hrp : first ≤ (if a[first + 1]! = 0x58 ∨ a[first + 1]! = 0x78 then ((16 : Nat), first + 2)
+                else (8, first + 1)).2 ∧
+              (if a[first + 1]! = 0x58 ∨ a[first + 1]! = 0x78 then ((16 : Nat), first + 2) else (8, first + 1)).2 ≤ last := by
+            split <;> (simp only []; omega)
+          rw [mkptr_ok hrp.1 hrp.2]
+          simp only [R.ok_bind]
           refine R.sat_bind (iter_sat _ (fun p => first ≤ p ∧ p ≤ last) (fun p => last - p)
             (fun p => first ≤ p ∧ p ≤ last) ?_ _ _ ?_ ?_) ?_
           · intro p hI
@@ -552,25 +593,24 @@ theorem ipv4ParseNumber_sat (a : Array Nat) (first last : Nat) (h : first ≤ la
           | some num => simp only; split <;> rfin
 
 /-- invariant of the `part[]` array in ipv4_parse: entries `0..dc` are pointers into `[first, it]`,
-    consecutive ones are at least two apart (a non-empty part and the dot) -/
-def PartInv (first it dc : Nat) (part : Loc) : Prop :=
+    consecutive ones are at least two apart (a non-empty part and the dot), and every entry after the
+    first points just behind a dot -/
+def PartInv (a : Array Nat) (first it dc : Nat) (part : Loc) : Prop :=
   dc ≤ 4 ∧ part.size = 6 ∧ (∀ k, k ≤ dc → first ≤ part.get k ∧ part.get k ≤ it) ∧
-  (∀ k, k < dc → part.get k + 2 ≤ part.get (k + 1))
+  (∀ k, k < dc → part.get k + 2 ≤ part.get (k + 1)) ∧
+  (∀ k, k < dc → a[part.get (k + 1) - 1]! = 0x2E)
 
-theorem ipv4Parse_sat (a : Array Nat) (first last : Nat) (h : first ≤ last) (hl : last ≤ a.size) :
-    (ipv4Parse a first last).sat (fun _ => True) := by
-  unfold ipv4Parse
-  split
-  · rfin
-  rename_i hne
+theorem ipv4Scan_sat (a : Array Nat) (first last : Nat) (h : first ≤ last) (hl : last ≤ a.size) :
+    (ipv4Scan a first last).sat (fun r => ∀ dc part, r = some (dc, part) → PartInv a first last dc part) := by
+  unfold ipv4Scan
   simp only [Loc.wr_ok (show 0 < (Loc.new 6).size by decide), R.ok_bind]
-  refine R.sat_bind (iter_sat _
-    (fun s => first ≤ s.1 ∧ s.1 ≤ last ∧ PartInv first s.1 s.2.1 s.2.2)
+  refine iter_sat _
+    (fun s => first ≤ s.1 ∧ s.1 ≤ last ∧ PartInv a first s.1 s.2.1 s.2.2)
     (fun s => last - s.1)
-    (fun r => ∀ dc part, r = some (dc, part) → PartInv first last dc part) ?_ _ _ ?_ ?_) ?_
+    (fun r => ∀ dc part, r = some (dc, part) → PartInv a first last dc part) ?_ _ _ ?_ ?_
   · intro ⟨it, dc, part⟩ hI
     simp only at hI ⊢
-    obtain ⟨h1, h2, h3, h4, h5, h6⟩ := hI
+    obtain ⟨h1, h2, h3, h4, h5, h6, h7⟩ := hI
     split
     · rename_i hit
       refine R.sat_pure ?_
@@ -578,19 +618,31 @@ theorem ipv4Parse_sat (a : Array Nat) (first last : Nat) (h : first ≤ last) (h
       simp only [Option.some.injEq, Prod.mk.injEq] at heq
       obtain ⟨rfl, rfl⟩ := heq
       subst hit
-      exact ⟨h3, h4, h5, h6⟩
+      exact ⟨h3, h4, h5, h6, h7⟩
     · simp only [rd_ok h1 (by omega : it < last) hl, R.ok_bind]
       split
-      · split
+      · rename_i hdot
+        split
         · exact R.sat_pure (by intro _ _ hh; cases hh)
         · simp only [Loc.rd_ok (by omega : dc < part.size), R.ok_bind]
           split
           · exact R.sat_pure (by intro _ _ hh; cases hh)
           · rename_i hd4 hpd
+            psimp
             simp only [Loc.wr_ok (by omega : dc + 1 < part.size), R.ok_bind]
             refine R.sat_pure ?_
             simp only []
-            refine ⟨⟨by omega, by omega, by omega, h4, ?_, ?_⟩, by omega⟩
+            refine ⟨⟨by omega, by omega, by omega, h4, ?_, ?_, ?_⟩, by omega⟩
+            rotate_left 2
+            · intro k hk
+              simp only []
+              by_cases hkd : k = dc
+              · subst hkd
+                simp only [if_pos, Nat.add_sub_cancel]
+                exact hdot
+              · have := h7 k (by omega)
+                simp only [if_neg (by omega : ¬ k + 1 = dc + 1)]
+                exact this
             · intro k hk
               simp only []
               split
@@ -608,119 +660,157 @@ theorem ipv4Parse_sat (a : Array Nat) (first last : Nat) (h : first ≤ last) (h
                 exact this
       · split
         · exact R.sat_pure (by intro _ _ hh; cases hh)
-        · refine R.sat_pure ?_
+        · psimp
+          refine R.sat_pure ?_
           simp only []
-          refine ⟨⟨by omega, by omega, h3, h4, ?_, h6⟩, by omega⟩
+          refine ⟨⟨by omega, by omega, h3, h4, ?_, h6, h7⟩, by omega⟩
           intro k hk
           have := h5 k hk; omega
   · simp only [Loc.new]
-    refine ⟨Nat.le_refl _, h, by omega, rfl, ?_, ?_⟩
+    refine ⟨Nat.le_refl _, h, by omega, rfl, ?_, ?_, ?_⟩
     · intro k hk
       have : k = 0 := by omega
       subst this; simp
     · intro k hk; omega
+    · intro k hk; omega
   · rarith
-  · intro scan hscan
-    cases scan with
-    | none => rfin
-    | some dp =>
-      obtain ⟨dc, part⟩ := dp
-      obtain ⟨h3, h4, h5, h6⟩ := hscan dc part rfl
-      simp only
-      refine R.sat_bind (P := fun b => b = true → dc > 0 ∧ part.get dc = last) ?_ ?_
-      · split
-        · simp only [Loc.rd_ok (by omega : dc < part.size), R.ok_bind]
-          exact R.sat_pure (by intro hb; simp only [decide_eq_true_eq] at hb; omega)
-        · exact R.sat_pure (by simp)
-      intro dropLast hdrop
-      refine R.sat_bind (P := fun pp => 1 ≤ pp.1 ∧ pp.1 ≤ 5 ∧ pp.2.size = 6 ∧
-          ∀ k, k < pp.1 → first ≤ pp.2.get k ∧ pp.2.get k ≤ pp.2.get (k + 1) - 1 ∧ pp.2.get (k + 1) - 1 ≤ last) ?_ ?_
-      · split
-        · rename_i hb
-          have := hdrop hb
-          refine R.sat_pure ⟨by omega, by omega, h4, ?_⟩
-          intro k hk
-          simp only [Nat.add_sub_cancel] at hk ⊢
-          have a1 := h5 k (by omega)
-          have a2 := h5 (k + 1) (by omega)
-          have a3 := h6 k hk
-          omega
-        · simp only [Loc.wr_ok (by omega : dc + 1 < part.size), R.ok_bind]
-          refine R.sat_pure ⟨by omega, by omega, h4, ?_⟩
-          intro k hk
-          simp only [] at hk ⊢
-          by_cases hkd : k = dc
-          · subst hkd
-            have a1 := h5 k (Nat.le_refl _)
-            simp only [if_pos, if_neg (by omega : ¬ k = k + 1)]
-            omega
-          · have a1 := h5 k (by omega)
-            have a2 := h5 (k + 1) (by omega)
-            have a3 := h6 k (by omega)
-            simp only [if_neg (by omega : ¬ k = dc + 1), if_neg (by omega : ¬ k + 1 = dc + 1)]
-            omega
-      intro ⟨partCount, part'⟩ hpp
-      simp only at hpp ⊢
-      obtain ⟨p1, p2, p3, p4⟩ := hpp
+
+theorem ipv4Combine_sat (number : Loc) (partCount : Nat) (hn : number.size = 4) (h1 : 1 ≤ partCount)
+    (h4 : partCount ≤ 4) : (ipv4Combine number partCount).sat (fun _ => True) := by
+  unfold ipv4Combine
+  refine R.sat_bind (iter_sat _ (fun _ => True) (fun ind => partCount - ind) (fun _ => True) ?_ _ _ ?_ ?_) ?_
+  · intro ind _
+    split
+    · simp only [Loc.rd_ok (by omega : ind < number.size), R.ok_bind]
+      split <;> rfin
+    · rfin
+  · trivial
+  · rarith
+  intro big _
+  split
+  · rfin
+  simp only [Loc.rd_ok (by omega : partCount - 1 < number.size), R.ok_bind]
+  split
+  · rfin
+  refine R.sat_bind (iter_sat _ (fun _ => True) (fun s => partCount - s.1) (fun _ => True) ?_ _ _ ?_ ?_) ?_
+  · intro ⟨counter, ipv4⟩ _
+    simp only
+    split
+    · simp only [Loc.rd_ok (by omega : counter < number.size), R.ok_bind]
+      rfin
+    · rfin
+  · trivial
+  · rarith
+  intro _ _
+  rfin
+
+theorem ipv4Parse_sat (a : Array Nat) (first last : Nat) (h : first ≤ last) (hl : last ≤ a.size) :
+    (ipv4Parse a first last).sat (fun _ => True) := by
+  unfold ipv4Parse
+  split
+  · rfin
+  rename_i hne
+  refine R.sat_bind (ipv4Scan_sat a first last h hl) ?_
+  intro scan hscan
+  cases scan with
+  | none => rfin
+  | some dp =>
+    obtain ⟨dc, part⟩ := dp
+    obtain ⟨h3, h4, h5, h6, _⟩ := hscan dc part rfl
+    simp only
+    refine R.sat_bind (P := fun b => b = true → dc > 0) ?_ ?_
+    · split
+      · simp only [Loc.rd_ok (by omega : dc < part.size), R.ok_bind]
+        exact R.sat_pure (by intro _; omega)
+      · exact R.sat_pure (by simp)
+    intro dropLast hdrop
+    generalize hpc : (if dropLast = true then dc + 1 - 1 else dc + 1) = partCount
+    have hpc1 : 1 ≤ partCount ∧ partCount ≤ dc + 1 := by
+      rw [← hpc]; split
+      · rename_i hb; have := hdrop hb; omega
+      · omega
+    split
+    · rfin
+    rename_i hpc4
+    refine R.sat_bind (iter_sat _ (fun s => s.1 ≤ partCount ∧ s.2.size = 4) (fun s => partCount - s.1)
+      (fun r => ∀ number, r = some number → number.size = 4) ?_ _ _ ?_ ?_) ?_
+    · intro ⟨ind, number⟩ hI
+      simp only at hI ⊢
       split
-      · rfin
-      rename_i hpc
-      refine R.sat_bind (iter_sat _ (fun s => s.1 ≤ partCount ∧ s.2.size = 4) (fun s => partCount - s.1)
-        (fun r => ∀ number, r = some number → number.size = 4) ?_ _ _ ?_ ?_) ?_
-      · intro ⟨ind, number⟩ hI
-        simp only at hI ⊢
-        split
-        · rename_i hind
-          have := p4 ind hind
-          simp only [Loc.rd_ok (by omega : ind < part'.size), Loc.rd_ok (by omega : ind + 1 < part'.size),
-            sub_ok this.1 this.2.1 this.2.2, R.ok_bind]
-          refine R.sat_bind (ipv4ParseNumber_sat a _ _ this.2.1 (by omega)) ?_
-          intro r _
-          cases r with
-          | none => exact R.sat_pure (by intro _ hh; cases hh)
-          | some n =>
-            simp only [Loc.wr_ok (by omega : ind < number.size), R.ok_bind]
-            refine R.sat_pure ?_
-            simp only []
-            omega
-        · refine R.sat_pure ?_
-          intro number' heq
-          simp only [Option.some.injEq] at heq
-          subst heq
-          exact hI.2
-      · exact ⟨Nat.zero_le _, rfl⟩
-      · rarith
-      intro numbers hnum
-      cases numbers with
-      | none => rfin
-      | some number =>
-        have hn := hnum number rfl
-        simp only
-        refine R.sat_bind (iter_sat _ (fun _ => True) (fun ind => partCount - ind) (fun _ => True) ?_ _ _ ?_ ?_) ?_
-        · intro ind _
-          split
-          · simp only [Loc.rd_ok (by omega : ind < number.size), R.ok_bind]
-            split <;> rfin
-          · rfin
-        · trivial
-        · rarith
-        intro big _
-        split
-        · rfin
-        simp only [Loc.rd_ok (by omega : partCount - 1 < number.size), R.ok_bind]
-        split
-        · rfin
-        refine R.sat_bind (iter_sat _ (fun _ => True) (fun s => partCount - s.1) (fun _ => True) ?_ _ _ ?_ ?_) ?_
-        · intro ⟨counter, ipv4⟩ _
-          simp only
-          split
-          · simp only [Loc.rd_ok (by omega : counter < number.size), R.ok_bind]
+      · rename_i hind
+        have a1 := h5 ind (by omega)
+        refine R.sat_bind (P := fun pe => part.get ind ≤ pe ∧ pe ≤ last) ?_ ?_
+        · split
+          · rename_i hid
+            have a2 := h5 (ind + 1) (by omega)
+            have a3 := h6 ind hid
+            simp only [Loc.rd_ok (by omega : ind + 1 < part.size), R.ok_bind]
+            psimp
             rfin
-          · rfin
-        · trivial
-        · rarith
-        intro _ _
-        rfin
+          · exact R.sat_pure ⟨a1.2, Nat.le_refl _⟩
+        intro pe hpe
+        simp only [Loc.rd_ok (by omega : ind < part.size), sub_ok a1.1 hpe.1 hpe.2, R.ok_bind]
+        refine R.sat_bind (ipv4ParseNumber_sat a _ _ hpe.1 (by omega)) ?_
+        intro r _
+        cases r with
+        | none => exact R.sat_pure (by intro _ hh; cases hh)
+        | some n =>
+          simp only [Loc.wr_ok (by omega : ind < number.size), R.ok_bind]
+          refine R.sat_pure ?_
+          simp only []
+          omega
+      · refine R.sat_pure ?_
+        intro number' heq
+        simp only [Option.some.injEq] at heq
+        subst heq
+        exact hI.2
+    · exact ⟨Nat.zero_le _, rfl⟩
+    · rarith
+    intro numbers hnum
+    cases numbers with
+    | none => rfin
+    | some number =>
+      exact ipv4Combine_sat number partCount (hnum number rfl) hpc1.1 (by omega)
+
+/-! ### the finding: ipv4_parse before commit b0c7a48 formed `last + 1` -/
+
+theorem mkptr_bad {first last p : Nat} (h : last < p) : mkptr first last p = .badptr := by
+  unfold mkptr; rw [if_neg]; omega
+
+/-- whenever the old code gets past the scan and does not drop a trailing empty part, it forms the
+    sentinel pointer `last + 1` -/
+theorem ipv4ParseOldSentinel_badptr (a : Array Nat) (first last : Nat) (hne : first ≠ last) (h : first ≤ last)
+    (hl : last ≤ a.size) (dc : Nat) (part : Loc) (hscan : ipv4Scan a first last = .ok (some (dc, part)))
+    (hnd : ¬ (dc > 0 ∧ part.get dc = last)) : ipv4ParseOldSentinel a first last = .badptr := by
+  obtain ⟨r, hr, hinv⟩ := ipv4Scan_sat a first last h hl
+  rw [hscan] at hr
+  cases hr
+  obtain ⟨h3, h4, _⟩ := hinv dc part rfl
+  unfold ipv4ParseOldSentinel
+  rw [if_neg hne, hscan]
+  simp only [R.ok_bind]
+  by_cases hd : dc > 0
+  · have hpd : ¬ part.get dc = last := fun he => hnd ⟨hd, he⟩
+    simp only [if_pos hd, Loc.rd_ok (by omega : dc < part.size), R.ok_bind, R.pure_bind', decide_eq_true_eq,
+      if_neg hpd, mkptr_bad (Nat.lt_succ_self last)]
+    rfl
+  · simp only [if_neg hd, R.pure_bind', Bool.false_eq_true, if_false, mkptr_bad (Nat.lt_succ_self last)]
+    rfl
+
+/-- … in particular for every input that does not end in a dot -/
+theorem ipv4ParseOldSentinel_badptr_of_no_trailing_dot (a : Array Nat) (first last : Nat) (hlt : first < last)
+    (hl : last ≤ a.size) (hdot : a[last - 1]! ≠ 0x2E) (dc : Nat) (part : Loc)
+    (hscan : ipv4Scan a first last = .ok (some (dc, part))) : ipv4ParseOldSentinel a first last = .badptr := by
+  refine ipv4ParseOldSentinel_badptr a first last (by omega) (by omega) hl dc part hscan ?_
+  intro ⟨hd, he⟩
+  obtain ⟨r, hr, hinv⟩ := ipv4Scan_sat a first last (by omega) hl
+  rw [hscan] at hr
+  cases hr
+  obtain ⟨_, _, _, _, h7⟩ := hinv dc part rfl
+  have := h7 (dc - 1) (by omega)
+  have e : dc - 1 + 1 = dc := by omega
+  rw [e, he] at this
+  exact hdot this
 
 theorem startsWithWindowsDrive_sat (a : Array Nat) (first last : Nat) (h : first ≤ last) (hl : last ≤ a.size) :
     (startsWithWindowsDrive a first last).sat (fun _ => True) := by
@@ -772,7 +862,8 @@ theorem isWindowsDriveAbsolutePath_sat (a : Array Nat) (first last : Nat) (h : f
     split
     · simp only [rd_ok (by omega : first ≤ first + 2) (by omega : first + 2 < last) hl, R.ok_bind]
       split
-      · exact R.sat_pure (by intro p hp; cases hp; omega)
+      · psimp
+        exact R.sat_pure (by intro p hp; cases hp; omega)
       · exact R.sat_pure (by simp)
     · exact R.sat_pure (by simp)
   · exact R.sat_pure (by simp)
@@ -782,6 +873,7 @@ theorem hasDotDotSegment_sat (isSl : Nat → Bool) (a : Array Nat) (first last :
   unfold hasDotDotSegment
   split
   · rename_i h2
+    psimp
     refine iter_sat _ (fun p => first ≤ p ∧ p ≤ last - 1) (fun p => last - p) _ ?_ _ _ ?_ ?_
     · intro p hI
       refine R.sat_bind (findCh_sat a first last 0x2E hl (last - 1 - p) p hI.1 (by omega)) ?_
@@ -809,7 +901,8 @@ theorem hasDotDotSegment_sat (isSl : Nat → Bool) (a : Array Nat) (first last :
         · intro hit _
           split
           · rfin
-          · split <;> rfin
+          · psimp
+            split <;> rfin
     · rarith
     · rarith
   · rfin
@@ -869,7 +962,8 @@ theorem isUncPath_sat (a : Array Nat) (first last : Nat) (h : first ≤ last) (h
               · exact h3 p hp
             split
             · exact R.sat_pure he
-            · exact R.sat_pure ⟨⟨by simp only []; omega, by simp only []; omega, he⟩, by simp only []; omega⟩
+            · psimp
+              exact R.sat_pure ⟨⟨by simp only []; omega, by simp only []; omega, he⟩, by simp only []; omega⟩
   · exact ⟨Nat.le_refl _, h, by simp⟩
   · rarith
 
@@ -897,7 +991,8 @@ theorem doubleDot_sat (a : Array Nat) (first last : Nat) (h : first ≤ last) (h
   · simp only [rd_ok (Nat.le_refl first) (by omega : first < last) hl, R.ok_bind]
     refine R.sat_bind (P := fun _ => True) ?_ ?_
     · split
-      · exact escapedDot_sat a first last _ hl (by omega) (by omega)
+      · psimp
+        exact escapedDot_sat a first last _ hl (by omega) (by omega)
       · rfin
     · intro l _
       split
@@ -911,7 +1006,8 @@ theorem doubleDot_sat (a : Array Nat) (first last : Nat) (h : first ≤ last) (h
   · refine R.sat_bind (escapedDot_sat a first last first hl (Nat.le_refl _) (by omega)) ?_
     intro e _
     split
-    · exact escapedDot_sat a first last _ hl (by omega) (by omega)
+    · psimp
+      exact escapedDot_sat a first last _ hl (by omega) (by omega)
     · rfin
   · rfin
 
@@ -971,11 +1067,14 @@ theorem doParse_sat (remQmark : Bool) (a : Array Nat) (first last : Nat) (h : fi
     · split <;> rfin
     split
     · split
-      · simp only [rd_ok (by omega : first ≤ it + 1) (by omega : it + 1 < last) hl,
-          rd_ok (by omega : first ≤ it + 2) (by omega : it + 2 < last) hl, R.ok_bind]
+      · psimp
+        simp only [rd_ok (by omega : first ≤ it + 1) (by omega : it + 1 < last) hl, R.ok_bind]
+        psimp
+        simp only [rd_ok (by omega : first ≤ it + 1 + 1) (by omega : it + 1 + 1 < last) hl, R.ok_bind]
         split
-        · simp only [idx_ok (by omega : a[it + 1]! % 256 / 0x20 < 8), idx_ok (by omega : a[it + 2]! % 256 / 0x20 < 8),
-            R.ok_bind]
+        · simp only [idx_ok (by omega : a[it + 1]! % 256 / 0x20 < 8),
+            idx_ok (by omega : a[it + 1 + 1]! % 256 / 0x20 < 8), R.ok_bind]
+          psimp
           split <;> rfin
         · split <;> rfin
       · split <;> rfin
@@ -1010,7 +1109,8 @@ theorem v6AfterHex_sat (a : Array Nat) (first last pointer0 pointer : Nat) (hl :
     split
     · split <;> exact R.sat_pure (by intro p hp; cases hp)
     · split
-      · split
+      · psimp
+        split
         · exact R.sat_pure (by intro p hp; cases hp)
         · exact R.sat_pure (by intro p hp; cases hp; omega)
       · exact R.sat_pure (by intro p hp; cases hp)
@@ -1040,11 +1140,14 @@ theorem v6MainLoop_sat (a : Array Nat) (first last : Nat) (hl : last ≤ a.size)
     split
     · split
       · exact R.sat_pure (by intro s b hsb; cases hsb)
-      · exact R.sat_pure ⟨⟨by simp only []; omega, by simp only []; omega, by simp only []; omega, h4⟩,
+      · psimp
+        exact R.sat_pure ⟨⟨by simp only []; omega, by simp only []; omega, by simp only []; omega, h4⟩,
           by simp only []; omega⟩
-    · have hlim : pointer ≤ (if last - pointer ≤ 4 then last else pointer + 4) ∧
-          (if last - pointer ≤ 4 then last else pointer + 4) ≤ last := by
-        split <;> omega
+    · refine R.sat_bind (P := fun lim => pointer ≤ lim ∧ lim ≤ last) ?_ ?_
+      · split
+        · rfin
+        · rfin
+      intro lim hlim
       simp only [sub_ok h1 hlim.1 hlim.2, R.ok_bind]
       refine R.sat_bind (getHexNumber_sat a pointer _ hlim.1 (by omega)) ?_
       intro ⟨pointer', value⟩ hp'
@@ -1109,7 +1212,8 @@ theorem v6V4Loop_sat (a : Array Nat) (first last : Nat) (hl : last ≤ a.size) (
     · split
       · simp only [rd_ok i1 (by omega : ptr < last) hl, R.ok_bind]
         split
-        · exact R.sat_pure (by intro p hp; cases hp; omega)
+        · psimp
+          exact R.sat_pure (by intro p hp; cases hp; omega)
         · exact R.sat_pure (by intro p hp; cases hp)
       · exact R.sat_pure (by intro p hp; cases hp; omega)
     intro p? hp?
@@ -1123,6 +1227,7 @@ theorem v6V4Loop_sat (a : Array Nat) (first last : Nat) (hl : last ≤ a.size) (
       simp only [rd_ok (by omega : first ≤ p) (by omega : p < last) hl, R.ok_bind]
       split
       · exact R.sat_pure (by intro s hs; cases hs)
+      psimp
       refine R.sat_bind (v6Digits_sat a first last hl (p + 1) _ _ (by omega) (by omega) (by omega)) ?_
       intro r hr
       cases r with
@@ -1171,7 +1276,8 @@ theorem ipv6Parse_sat (a : Array Nat) (first last : Nat) (h : first ≤ last) (h
     · simp only [rd_ok (by omega : first ≤ first + 1) (by omega : first + 1 < last) hl, R.ok_bind]
       split
       · exact R.sat_pure (by intro s hs; cases hs)
-      · refine R.sat_pure ?_
+      · psimp
+        refine R.sat_pure ?_
         intro s hs
         simp only [Option.some.injEq] at hs
         rw [← hs]
